@@ -5,12 +5,15 @@ from .. import tlc, laws
 from ..common import EXACT_EMBS, DEC_EMBS
 
 RULE = ("M: SlicedWasserstein.tla -- sorted matching attains the 1-D transport minimum over all bijections (all pairs of sequences of "
-        "length <=4, thorough 5), a common value on both sides is irrelevant, symmetry. Exact anchor: for M in {1,2} the directions are (0,1) "
-        "and (-1,0), so SW is a rational number that MetricLaws.tla computes from the diagrams in half ticks (each diagram augmented with the "
+        "length <=4, thorough 5), a common value on both sides is irrelevant, symmetry. Exact anchor: for every tabulated number of directions M (1..16, 25, 49, 50, 64, 98, 100, 103; cos/sin of (1/2+i/M) pi "
+        "tabulated to 1e-16 in Tables.tla) MetricLaws.tla computes SW from the diagrams in fixed point (each diagram augmented with the "
         "diagonal projections ((b+d)/2,(b+d)/2) of the other); required to 1e-6 (the code's direction vectors are float32). Laws for every "
         "M in 1..60 on sessions of related diagrams with coordinates of either sign: finite, >=0, zero on reorderings, symmetry, triangle, "
         "diagonal points ignored, diagonal translation (also into negative coordinates), linear scaling, empty diagrams, SW <= 2*W1 with "
         "both sides observed. Non-trivial = session with multi-point diagrams; evaluations = calls into persim.sliced_wasserstein.")
+
+
+ANCHOR_MS = [1, 2, 3, 4, 5, 7, 10, 16, 49, 50, 64, 98, 103]      # a subset of Tables!SWMs
 
 
 def run(ctx):
@@ -22,17 +25,19 @@ def run(ctx):
     from .. import tlaps
     tlaps.attach(ctx, "SortedExchange", "for ALL integers: uncrossing two matched pairs never increases the 1-D cost; a common translation leaves every pair cost unchanged")
     rng = ctx.rng
-    embs = EXACT_EMBS[:4] + DEC_EMBS[:3]
+    embs = EXACT_EMBS[:4] + DEC_EMBS[:3] + EXACT_EMBS[4:6]      # incl. scales 2^-50 and 2^30
     specs = []
     for i in range(50 if quick else 500):
         neg = i % 2 == 1
         sess = [laws.rand_dgm(rng, rng.randint(0, 5), 8, neg=neg, diag=0.15) for _ in range(3)]
-        sess.append(rng.sample(sess[0], len(sess[0])))
-        if len(sess[0]) >= 2:
-            sess.append(laws.repaired(rng, sess[0]))
-        t = rng.choice([-20, -9, 5])
-        sess.append([[b + t, d + t] for b, d in sess[0]]); sess.append([[b + t, d + t] for b, d in sess[1]])
-        specs.append(dict(session=sess, fn="sw", emb=embs[i % len(embs)], M=rng.choice([1, 2]), anchor=1, aux=[], zerotol=Fraction(1, 10 ** 9)))
+        M = rng.choice(ANCHOR_MS if i % 3 else [m for m in ANCHOR_MS if m <= 16])
+        if M <= 16:     # larger sessions only for few directions (TLC evaluates M sorted 1-D matchings per pair)
+            sess.append(rng.sample(sess[0], len(sess[0])))
+            if len(sess[0]) >= 2:
+                sess.append(laws.repaired(rng, sess[0]))
+            t = rng.choice([-20, -9, 5])
+            sess.append([[b + t, d + t] for b, d in sess[0]]); sess.append([[b + t, d + t] for b, d in sess[1]])
+        specs.append(dict(session=sess, fn="sw", emb=embs[i % len(embs)], M=M, anchor=1, aux=[], zerotol=Fraction(1, 10 ** 9)))
     for i in range(16 if quick else 150):
         sess = laws.make_session(rng, 2, 14 if quick else 50, rng.choice([6, 12, 30]), neg=(i % 2 == 1), with_empty=True)
         specs.append(dict(session=sess, fn="sw", emb=embs[i % len(embs)], M=rng.choice([1, 2, 3, 5, 10, 50, 60]), anchor=0, aux=["W"] if i % 2 == 0 else [], zerotol=Fraction(1, 10 ** 9)))
